@@ -220,7 +220,7 @@ structure P where
   panicked : Bool := false
 deriving Repr, Inhabited
 
-/-- `Printer.reset` (+ `wroteSemi`, which Go leaves as is; a fresh printer has `false`). -/
+/-- `Printer.reset` (which also clears `wroteSemi`). -/
 def P.init (o : Opts) : P := { o := o, firstLine := !o.minify }
 
 def P.tok (p : P) (b : Bytes) : P := { p with out := .op b :: p.out }
@@ -430,7 +430,9 @@ def P.stmtEnd (p : P) (semi : Pos) (bg : Bool) : P :=
       let p := if sep then p.bslashNewl else if !p.o.minify then p.space else p
       let p := if bg then p.tok [38] else p.tok [59]
       { p with wroteSemi := true, wantSpace := .required }
-    else p
+    else
+      -- a terminator written for a nested statement (`{ a & }`) says nothing about this one
+      { p with wroteSemi := false }
   p.decLevel
 
 /-- `case *Subshell:` up to the `nestedStmts` call -/
@@ -505,6 +507,8 @@ def P.command (p : P) : Cmd → P
     let p := { p with wroteSemi := true, wantSpace := .required }
     let p := { p with wantNewline := p.wantNewline || p.o.funcNextLine }
     let p := p.nestedStmtsWith ss rb (fun q => q.stmtListLoop true ss)
+    -- `{}` is a word
+    let p := if p.o.minify && ss.length == 0 then p.space else p
     p.semiRsrv [125] rb.line
   | .subshell lp rp ss =>
     let p := (p.advanceLine lp.line).spacePad
@@ -561,7 +565,7 @@ def printStmt (o : Opts) (s : Stmt) : Except PrintErr Bytes :=
 /-- `Print(w, Command)` : `p.command(node, nil)` -/
 def printCmd (o : Opts) (c : Cmd) : Except PrintErr Bytes :=
   if refuse o then .error .minifySingleLine
-  else ((P.init o).command c).finish
+  else (({ (P.init o) with firstLine := false }).command c).finish
 
 /-- `Print(w, *Word)` : `p.line = node.Pos().Line(); p.word(node)` -/
 def printWord (o : Opts) (w : Word) : Except PrintErr Bytes :=
